@@ -466,3 +466,29 @@ package proxy
 //@   ensures specReqOK(req) && req.ctx == old(req.ctx) && req.Body == old(req.Body)
 //@   ensures specFetchErr(result1)
 //@   ensures result1 == nil ==> result0.StatusCode >= 100 && result0.StatusCode <= 999
+
+// ---------------------------------------------------------------- entry points
+//
+// The constructor hands the cache constructors a configuration they can work with whenever
+// it was accepted by Config.verify (lock_shards >= 1, cleanup interval > 0: their
+// preconditions are obligations at the call sites), and wires the proxy to that configuration,
+// the given certificate authority and the new cache.  (That the configuration's values stay
+// set across the cache constructors is not proved: they have no frame clause yet.)  ServeHTTP - the only entry
+// point net/http calls - hands each request to its handler with the handler's preconditions.
+// (net/http: the request it passes has a URL and a header map whose keys carry at least one
+// value; the ResponseWriter is fresh: nothing written, header set empty.)
+//@ props C16
+//@ func NewProxy
+//@   nopanic
+//@   requires cfg != nil && ca != nil
+//@   requires specWorkableCache(cfg.Cache) && cfgval(cfg.Cache.LockShards) < 4294967296      // what Config.verify accepts (C18), and fewer than 2^32 lock shards
+//@   requires specEventInv(cfg.Cache.MaxCacheSize.onChange) && cfg.Cache.MaxCacheSize.onChange.nextID < 18446744073709551615 && specEventInv(cfg.Cache.CleanupInterval.onChange) && cfg.Cache.CleanupInterval.onChange.nextID < 18446744073709551615 && specEventInv(cfg.Cache.Memory.MemoryBudgetPercent.onChange) && cfg.Cache.Memory.MemoryBudgetPercent.onChange.nextID < 18446744073709551615
+//@   requires aset(cfg.Cache.CleanupInterval.value) && aset(cfg.Cache.MaxCacheSize.value) && aset(cfg.Cache.LockShards.value) && aset(cfg.Cache.Type.value) && aset(cfg.Cache.File.Dir.value) && aset(cfg.Cache.Memory.MemoryBudgetPercent.value)
+//@   requires aset(cfg.Proxy.RetryOnInvalidRange.value) && aset(cfg.Proxy.CachePolicy.IgnoreCacheControl.value) && aset(cfg.Proxy.CachePolicy.DefaultMaxAge.value) && aset(cfg.Proxy.CachePolicy.ForceDefaultMaxAge.value) && aset(cfg.Proxy.UpstreamDefaultHttps.value)
+//@   ensures [C16] result1 == nil ==> result0 != nil && result0.cfg == cfg && result0.ca == ca && result0.fetch.cfg == cfg && result0.fetch.cache != nil && result0.cache != nil
+
+//@ props C16 C10
+//@ func Proxy.ServeHTTP
+//@   nopanic
+//@   requires specProxy(p) && w != nil && proxyReq != nil && proxyReq.URL != nil && specHdrOK(proxyReq.Header)
+//@   requires httpwrites(w) == 0 && (forall k key :: !in(rwheader(w), k))
